@@ -9,6 +9,7 @@ def generate(E):
     files = {}
     files["Codec.lean"] = gen_codec(E)
     files["Compare.lean"] = gen_compare(E)
+    files["Easy.lean"] = gen_easy(E)
     try:
         import kernels
         files.update(kernels.generate(E))
@@ -243,5 +244,37 @@ def gen_compare(E):
         cmp_body, max_body = "", ""
     out.append("def compareWithConfigBody : String := " + json.dumps(cmp_body))
     out.append("def maxDistanceBodyText : String := " + json.dumps(max_body) + "\n")
+    out.append("end TlshVerif.Gen\n")
+    return "\n".join(out)
+
+
+def gen_easy(E):
+    out = [E.HEADER, "namespace TlshVerif.Gen\n"]
+    t = E.src_tokens("generate_easy_std.rs")
+    try:
+        bs = E.const_item(t, "BUFFER_SIZE", {})
+    except Exception as e:
+        E.fail("BUFFER_SIZE", str(e))
+        bs = 0
+    out.append(f"def bufferSize : Nat := {bs}\n")
+    retry = False
+    has_inv = False
+    try:
+        i = find_seq(t, ["fn", "hash_stream_common"])
+        j = i
+        while t[j].text != "{":
+            j += 1
+        e = match_close(t, j)
+        body = [x.text for x in t[j:e + 1]]
+        # retry: the loop mentions ErrorKind::Interrupted and `continue`
+        retry = ("Interrupted" in body) and ("continue" in body)
+        k = find_seq(t[j:e + 1], ["invariant!", "(", "len", "<=", "buffer", ".", "len", "(", ")", ")"])
+        has_inv = k >= 0
+    except Exception as ex:
+        E.fail("hash_stream_common", str(ex))
+    out.append("/-- `hash_stream_common` retries a read that fails with `ErrorKind::Interrupted` -/")
+    out.append(f"def retryInterrupted : Bool := {'true' if retry else 'false'}")
+    out.append("/-- `hash_stream_common` hands `len <= buffer.len()` to the optimiser under feature `unsafe` -/")
+    out.append(f"def streamLenInvariant : Bool := {'true' if has_inv else 'false'}\n")
     out.append("end TlshVerif.Gen\n")
     return "\n".join(out)
